@@ -65,7 +65,7 @@ func Main(f func()) {
 	} else {
 		tape = Replay(mt.Sched, mt.Aux)
 	}
-	s := New(Config{Tape: tape, MaxSteps: 100_000_000, PathNames: true})
+	s := New(Config{Tape: tape, MaxSteps: 100_000_000, PathNames: true, DaemonsOK: true})
 	mainSim = s
 	// When main returns a Go program exits, whatever its other goroutines are
 	// doing: do the same from inside the root task.
